@@ -126,7 +126,6 @@ Section OpenCreate.
   Hypothesis H : step_hyps s sv.
   Hypothesis Hp0 : path_ok s sv SlLstat (w ++ [cl]).
   Hypothesis Hp : path_ok s sv SlEval (w ++ [cl]).
-  Hypothesis Hsg : no_setgid_parent_follow s sv (w ++ [cl]).
   Hypothesis Hcr : has flag O_CREATE = true.
   Hypothesis Hex : has flag O_EXCL = false.
   Notation p := (abs_path (w ++ [cl])).
@@ -145,7 +144,6 @@ Section OpenCreate.
     pose proof (sh_admin _ _ H) as Hadm.
     rewrite (open_file_nf _ _ _ _ _ _ (abs_path_nonempty _)), Hcr, Hex. cbn [andb]. unfold open_nf. cbv beta iota zeta.
     unfold k_open, decode_flags. rewrite Hcr, Hex. cbv beta iota zeta. cbn [negb]. rewrite Hpm.
-    unfold no_setgid_parent_follow in Hsg.
     set (tr := has flag O_TRUNC). set (wr := negb (N.eqb (N.land flag 3) 0)).
     set (r := search_node s v p SlEval) in *.
     destruct Hcase as [(E1 & e0 & E2)|(par0 & ->)].
@@ -168,8 +166,7 @@ Section OpenCreate.
       rewrite R1, V2, R3, V1, F1. cbn [is_file_exists is_not_exist negb andb orb].
       rewrite (admin_perm_on s sv par _ H) by (apply node_is_dir_valid; exact F2).
       rewrite (admin_kperm s sv par 3 H) by (apply node_is_dir_valid; exact F2). cbn [negb].
-      unfold create_file, alloc_child, kmeta, new_meta, new_owner_gid.
-      rewrite (Hsg _ _ _ eq_refl), (sh_os _ _ H). cbn [file_mode andb]. osim.
+      rewrite create_file_alloc by exact (sh_os _ _ H). osim.
     - destruct R.
     - destruct R as (R1 & R2). destruct (werr_cases _ _ R1 Hnf) as (Hc & ->).
       destruct Hc as [Hc|[Hc|[Hc|Hc]]]; rewrite Hc in *; try osim.
@@ -191,18 +188,17 @@ End OpenCreate.
 
 (* ---- O_CREATE with O_EXCL: the final symbolic link is not followed ------------------------------------------------------------------------ *)
 Theorem step_open_excl (s : fsys) (sv : sview) (vi : nat) (w : list str) (cl : str) (flag perm : N) :
-  step_hyps s sv -> path_ok s sv SlLstat (w ++ [cl]) -> no_setgid_parent s sv (w ++ [cl]) ->
+  step_hyps s sv -> path_ok s sv SlLstat (w ++ [cl]) ->
   has flag O_CREATE = true -> has flag O_EXCL = true ->
   let p := abs_path (w ++ [cl]) in
   open_sim (open_file s (sv_view sv) vi p flag perm) (k_open s sv p flag perm).
 Proof.
-  intros H Hp Hsg Hcr Hex p. pose proof (resolve s sv SlLstat (w ++ [cl]) H Hp) as R.
+  intros H Hp Hcr Hex p. pose proof (resolve s sv SlLstat (w ++ [cl]) H Hp) as R.
   destruct Hp as (Hg & Hk1 & Hnf). change (follow_of SlLstat) with false in R, Hk1. change (precise_of SlLstat) with true in R.
   destruct (klookup_pm s sv false w cl Hg Hk1) as (Hkn & Hkg & Hpm).
   pose proof (klookup_final s sv false (w ++ [cl]) Hg) as Hfin. pose proof (sh_admin _ _ H) as Hadm.
   unfold p. rewrite (open_file_nf _ _ _ _ _ _ (abs_path_nonempty _)), Hcr, Hex. cbn [andb]. unfold open_nf. cbv beta iota zeta.
   unfold k_open, decode_flags. rewrite Hcr, Hex. cbv beta iota zeta. cbn [negb]. rewrite Hpm.
-  unfold no_setgid_parent in Hsg.
   set (tr := has flag O_TRUNC). set (wr := negb (N.eqb (N.land flag 3) 0)).
   set (r := search_node s (sv_view sv) (abs_path (w ++ [cl])) SlLstat) in *.
   destruct (klookup s sv false false (abs_path (w ++ [cl]))) as [par kind name n|par name md|a b c d|e] eqn:HK; cbn [walk_rel] in R.
@@ -215,8 +211,7 @@ Proof.
     rewrite R1, V2, R3, V1, F1. cbn [is_file_exists is_not_exist negb andb orb].
     rewrite (admin_perm_on s sv par _ H) by (apply node_is_dir_valid; exact F2).
     rewrite (admin_kperm s sv par 3 H) by (apply node_is_dir_valid; exact F2). cbn [negb].
-    unfold create_file, alloc_child, kmeta, new_meta, new_owner_gid.
-    rewrite (Hsg _ _ _ eq_refl), (sh_os _ _ H). cbn [file_mode andb]. osim.
+    rewrite create_file_alloc by exact (sh_os _ _ H). osim.
   - destruct R.
   - destruct R as (R1 & R2). destruct (werr_cases _ _ R1 Hnf) as (Hc & ->).
     destruct Hc as [Hc|[Hc|[Hc|Hc]]]; rewrite Hc in *; try osim.
